@@ -196,3 +196,17 @@ Definition add_or_drop (s : vidx) (e : event) : bool * vidx :=
   match add s e with Some s' => (true, s') | None => (false, s) end.
 Definition index_all (n : nat) (o : list event) : vidx :=
   fold_left (fun s e => snd (add_or_drop s e)) o (init n).
+
+(* ---------- Flush / DropNotFlushed (vecengine.Engine over kvdb/flushable) ----------
+   The engine writes vectors, branch ids and (on Flush) BranchesInfo through a flushable store;
+   DropNotFlushed discards every write since the last Flush, reloads BranchesInfo and purges the
+   HB/LA caches.  Two-level state: what has been flushed, and the current (possibly unflushed) view.
+   vs_add mirrors the caller protocol of the harness / abft: a failed Add is followed by DropNotFlushed. *)
+Record vstore := { vs_flushed : vidx; vs_cur : vidx }.
+Definition vs_init (n : nat) : vstore := {| vs_flushed := init n; vs_cur := init n |}.
+Definition vs_add (st : vstore) (e : event) : bool * vstore :=
+  match add (vs_cur st) e with
+  | Some s' => (true, {| vs_flushed := vs_flushed st; vs_cur := s' |})
+  | None => (false, {| vs_flushed := vs_flushed st; vs_cur := vs_flushed st |}) end.
+Definition vs_flush (st : vstore) : vstore := {| vs_flushed := vs_cur st; vs_cur := vs_cur st |}.
+Definition vs_drop (st : vstore) : vstore := {| vs_flushed := vs_flushed st; vs_cur := vs_flushed st |}.
